@@ -16,6 +16,7 @@ import Logrange.Model.JIterObs
 * `w.write <part> <n> (<ts> <msg> <fields>)*`     → `calls=[first last cid min max; …] start=c:i end=c:i err=0|1`
 * `w.wp <part> <maxRec> <packet> <k> (<text> <parsed|!>)*`  → (maxRec: the record-size limit the ingestor knows, 0 = none) server side of one RPC write: `rejected` | `panic` | `n=<events> calls=… err=…`
 * `w.writef <part> <cancel c|nonew 0|none 0> <n> (<ts> <msg> <fields>)*` → the same under a fault pattern (`serviceWriteF`)
+* `w.restart <part> <durable>`                      → `ok`: graceful stop and restart (`gracefulRestart`)
 * `w.read <part> <maxRecordSize>`                 → `ok <n> (<ts>/<msg>/<fields>)*` | `toosmall <k>` (the k-th record, 0-based, exceeds the read buffer)
 * `w.layout <part>`                               → `<count of chunk 1> <count of chunk 2> …`
 * `tail.probe <old> <fuel> <polls> <count script…>` → `jobs=<probe> tail=<probe>`: the library journal iterator's observation model and
@@ -145,6 +146,9 @@ def step (s : St) (toks : List String) : St × String :=
       if mode == "cancel" then faultCancelAt param.toNat! else if mode == "nonew" then faultNoNewChunk s.maxSize else fun _ _ => false
     let (j', o) := serviceWriteF fa s.maxSize (s.get p.toNat!) (evs.map recOf)
     (s.set p.toNat! j', showOut o)
+  | ["w.restart", p, durable] =>
+    -- graceful stop + restart: `durable` records were confirmed when the stop began
+    (s.set p.toNat! (gracefulRestart (s.get p.toNat!) durable.toNat!), "ok")
   | ["w.read", p, mr] => (s, readBack (s.get p.toNat!) mr.toNat!)
   | ["w.layout", p] => (s, " ".intercalate ((s.get p.toNat!).map (fun c => toString c.recs.length)))
   | _ => (s, "bad-op")
